@@ -1,12 +1,26 @@
 """C03 - time-window reads return exactly the intersecting events, newest first, limited."""
+S = "aw_datastore.storages.sqlite.SqliteStorage."
 PROP = dict(
     id="C03",
     level="other",
-    contract_modules=["contracts.models"],
-    spec_modules=["contracts.models"],
-    functions=[],
+    contract_modules=["contracts.models", "contracts.sqlite"],
+    spec_modules=["contracts.sqlite"],
+    functions=[dict(fn=S + "get_events", rt_skip=True),
+               dict(fn=S + "get_eventcount", rt_skip=True),
+               dict(fn="aw_datastore.storages.sqlite._rows_to_events", rt_skip=True)],
+    timeout_s=20,
     extra=[lambda run: run.storage_histories("C03")],
     technique="run-time refinement check of the real back ends against a reference list over random histories (bounded); "
-              "contract-based proof of the sqlite methods is layered on top where built",
-    explanation="bounded: random bucket contents (overlapping, nested, adjacent, zero-length events) and random windows (open-ended, zero-width, sub-millisecond) and limits on the three back ends: every event strictly inside (beyond 2 ms of an edge) must be returned and none strictly outside, ordered by timestamp descending, a positive limit keeps the newest, the count agrees within the same tolerance, peewee's results are the stored events cut to the window.",
+              "with the sqlite methods proved against contracts over the table state (SQL text parsed from the source)",
+    explanation="deductive (sqlite): get_events returns exactly the live events of the bucket with endtime >= start bound and starttime <= end bound, in (starttime, endtime, id) descending order, all of them unless a positive limit is reached, in which case the omitted ones all come after every returned one; limit 0 returns nothing; get_eventcount counts exactly those rows. " 
+                "bounded: random bucket contents (overlapping, nested, adjacent, zero-length events) and random windows (open-ended, zero-width, sub-millisecond) and limits on the three back ends: every event strictly inside (beyond 2 ms of an edge) must be returned and none strictly outside, ordered by timestamp descending, a positive limit keeps the newest, the count agrees within the same tolerance, peewee's results are the stored events cut to the window.",
 )
+
+F = "/repo/aw_datastore/storages/sqlite.py"
+MUTANTS = [
+    (F, '            AND endtime >= ? AND starttime <= ?\n', '            AND endtime > ? AND starttime <= ?\n', True),   # window lower bound exclusive
+    (F, '            AND endtime >= ? AND starttime <= ?\n', '            AND starttime >= ? AND starttime <= ?\n', True),   # window tests start only
+    (F, '            ORDER BY starttime DESC, endtime DESC, id DESC LIMIT ?\n', '            ORDER BY starttime ASC, endtime DESC, id DESC LIMIT ?\n', True),   # oldest first
+    (F, '            ORDER BY starttime DESC, endtime DESC, id DESC LIMIT ?\n', '            ORDER BY endtime DESC, starttime DESC, id DESC LIMIT ?\n', True),   # order by end first
+    (F, '        if limit == 0:\n            return []\n        elif limit < 0:\n            limit = -1', '        if limit == 0:\n            limit = -1\n        elif limit < 0:\n            limit = -1', True),   # limit 0 returns everything
+]
